@@ -90,6 +90,10 @@ def cases(tier):
                "time_varying"):
         out.append(("error", em))
     out.append(("allometry",))
+    # likelihood-based handling of observations below the limit of quantification: how the limit is given x method
+    for src in ("lloq_option", "lloq_column", "blq_column+lloq_option", "blq_column+lloq_column"):
+        for method in ("m3", "m4"):
+            out.append(("blq", src, method))
     out.append(("iov",))
     out.append(("iov", "CL"))
     out.append(("iov", "VC"))
@@ -331,6 +335,13 @@ def run_case(model, case):
                         fails.append(f"{p} already has an effect of WGT, yet add_allometry changes it: ratio {b / a:.6g} at WGT = 2 x reference")
                 elif not close(b, a * 2.0**expo, 1e-9):
                     fails.append(f"{p} at WGT = 2 x reference: ratio {b / a:.6g}, documented 2**{expo}")
+        elif kind == "blq":
+            _, src, method = case
+            st, bf, bc = check_blq(model, src, method, call)
+            fails += bf
+            compared += bc
+            if st != "ok":
+                return st, fails, compared
         elif kind == "iov":
             if len(case) > 1:
                 m2, st = call(pm.add_iov, "FA1", list_of_parameters=[case[1]])
@@ -388,6 +399,110 @@ def run_case(model, case):
     except (Undefined, ArithmeticError, ireval.Unsupported) as e:
         return "skipped", [], compared
     return "ok", fails[:10], compared
+
+
+def check_blq(model, src, method, call):
+    """documented (transform_blq): M3: Y = PHI((LLOQ - IPRED)/SD) for a record below the limit, M4: (PHI((LLOQ - IPRED)/SD) -
+    PHI(-IPRED/SD)) / (1 - PHI(-IPRED/SD)); SD = standard deviation of the residual error at IPRED; records above the limit keep
+    their error model.  A BLQ column only says WHICH records are below the limit; the limit is the lloq option / LLOQ column."""
+    import pharmpy.modeling as pm
+    from pharmpy.model import ColumnInfo
+    from vlib import ireval
+    from vlib.xeval import _phi, close, ev
+
+    LIMIT = 12.5
+    fails = []
+    m0 = model
+    df = m0.dataset.copy()
+    di = m0.datainfo
+    lloq = None
+    if "blq_column" in src:
+        df["BLQ"] = ((df["DV"] < LIMIT) & (df["AMT"] == 0)).astype(int)
+        di = di + ColumnInfo.create("BLQ", type="blq")
+    if "lloq_column" in src:
+        df["LLOQ"] = LIMIT
+        di = di + ColumnInfo.create("LLOQ", type="lloq")
+    if "lloq_option" in src:
+        lloq = LIMIT
+    try:
+        m0 = m0.replace(dataset=df, datainfo=di)
+    except Exception as e:
+        return f"refused:{type(e).__name__}", [], 0
+    m2, st = call(lambda m: pm.transform_blq(m0, method=method, lloq=lloq))
+    if m2 is None:
+        return st, [], 0
+    dv = list(m0.dependent_variables.keys())[0]
+    epss0 = m0.random_variables.epsilons.names
+    base0, base2 = ireval.base_env(m0), ireval.base_env(m2)
+    amt_names = [str(c) for c in m0.statements.ode_system.amounts]
+
+    def Y(m, base, amount, eps, rec):
+        env = dict(base)
+        env.update(rec)
+        env["t"] = rec.get("TIME", 0.0)
+        for s in m.statements.before_odes:
+            env[str(s.symbol)] = ev(s.expression, env)
+        for a in amt_names:
+            env[a] = amount
+        for n in m.random_variables.epsilons.names:
+            env[n] = eps
+        for s in m.statements.after_odes:
+            env[str(s.symbol)] = ev(s.expression, env)
+        return env[str(dv)]
+
+    compared = 0
+    rec0 = first_record(m0)
+    rec0["TIME"] = 5.0
+    for amount in (20.0, 55.0):
+        for below in (True, False):
+            rec = dict(rec0)
+            rec["DV"] = LIMIT - 2.0 if below else LIMIT + 5.0
+            if "blq_column" in src:
+                rec["BLQ"] = 1.0 if below else 0.0
+            if "lloq_column" in src:
+                rec["LLOQ"] = LIMIT
+            ipred = Y(m0, base0, amount, 0.0, rec)
+            # residual standard deviation at this prediction: sqrt(sum (dY/deps_k)^2 * var_k), by central differences
+            var = 0.0
+            for dist in m0.random_variables.epsilons:
+                nm = dist.names[0]
+                env_eps = {n: 0.0 for n in epss0}
+                h = 1e-4
+
+                def yk(v):
+                    env = dict(base0)
+                    env.update(rec)
+                    env["t"] = rec["TIME"]
+                    for s in m0.statements.before_odes:
+                        env[str(s.symbol)] = ev(s.expression, env)
+                    for a in amt_names:
+                        env[a] = amount
+                    for n in epss0:
+                        env[n] = v if n == nm else 0.0
+                    for s in m0.statements.after_odes:
+                        env[str(s.symbol)] = ev(s.expression, env)
+                    return env[str(dv)]
+
+                d = (yk(h) - yk(-h)) / (2 * h)
+                var += d * d * float(ev(dist.variance, base0))
+            sd = math.sqrt(var)
+            got = Y(m2, base2, amount, 0.3 if not below else 0.0, rec)
+            compared += 1
+            if below:
+                cumd = _phi((LIMIT - ipred) / sd)
+                if method == "m3":
+                    want = cumd
+                else:
+                    cz = _phi(-ipred / sd)
+                    want = (cumd - cz) / (1 - cz)
+                if not close(got, want, 1e-6):
+                    fails.append(f"{method} with {src}: Y of a record below the limit is {got:.8g}, documented likelihood gives {want:.8g} "
+                                 f"(IPRED {ipred:.6g}, SD {sd:.6g}, limit {LIMIT})")
+            else:
+                want = Y(m0, base0, amount, 0.3, rec)
+                if not close(got, want, 1e-9):
+                    fails.append(f"{method} with {src}: Y of a record above the limit is {got:.8g}, the error model gives {want:.8g}")
+    return "ok", fails, compared
 
 
 def check_error_model(m2, em):
